@@ -129,6 +129,10 @@ def c14_pipeline(ctx, base_env, tag, extra_env):
     rc, out = m.run([testbin, "-test.run", "^TestRun$", "-test.timeout", "0", "-test.v"], env=env, cwd=pkgdir,
                     timeout=ctx["tconf"].get("timeout", 1800))
     v, k, notes = m.parse_verdict_lines(out)
+    if rc not in (0, 1) and not v:
+        cv = m.crash_violation(pid, work, tag, out)
+        if cv:
+            v = [cv]
     m.handle_output(pid, rc, out, v, k, notes, ctx["violations"], ctx["known_lines"], ctx["inconcl"], "C14 batch " + tag)
     if os.path.exists(pf):
         ctx["partials"].append(pf)
